@@ -241,6 +241,9 @@ def subst(text, f):
         if k == 'ret':
             return '__CPROVER_return_value'
         if k.startswith('L'):
+            alias = getattr(f, 'local_alias', {}).get(int(k[1:]))
+            if alias:
+                return alias
             i = int(k[1:]) - 1
             if i >= len(f.locals):
                 raise LowerError("contract of %s mentions local #%d but the function declares %d" % (f.cname, i + 1, len(f.locals)))
@@ -384,13 +387,21 @@ def build_c(ast, unit, registry):
     # positional bindings of locals ($Lk) survive renames; they are only meaningful while the function declares the same sequence of
     # local types as when the contract was written (contracts/local_shapes.json): otherwise extraction break, never a verdict
     _lt = (ucontract or '') + ''.join(v for v in ((unit.loops if isinstance(unit.loops, dict) else {}) or {}).values())
+    tf.local_alias = {}
     if re.search(r'\$L\d', _lt):
-        shape = [t for n, t in tf.locals]
+        shape = [[n, t] for n, t in tf.locals]
         rec = LOCAL_SHAPES.get(unit.id)
         if RECORD_SHAPES is not None:
             RECORD_SHAPES[unit.id] = shape
-        elif rec is not None and rec != shape:
-            raise LowerError('%s: the sequence of local declarations changed (%s, recorded %s): positional bindings $Lk are no longer meaningful' % (tf.cname, shape, rec))
+        elif rec is not None:
+            used = sorted(set(int(k) for k in re.findall(r'\$L(\d+)', _lt)))
+            names_now = [n for n, t in tf.locals]
+            by_name = all(k <= len(rec) and names_now.count(rec[k - 1][0]) == 1 and dict(tf.locals)[rec[k - 1][0]] == rec[k - 1][1] for k in used)
+            if by_name:
+                # every bound local still exists under its recorded name and type: bind by name (locals may have been inserted or reordered)
+                tf.local_alias = {k: rec[k - 1][0] for k in used}
+            elif [t for n, t in rec] != [t for n, t in shape]:
+                raise LowerError('%s: the local declarations changed (%s, recorded %s): the bindings $Lk are no longer meaningful' % (tf.cname, shape, rec))
     tcontract = ghost_requires(unit, tf) + subst(expand_ghost(ucontract, unit, tf.cname), tf)
     if callee_ghosts:
         tcontract += '\n__CPROVER_assigns(%s)\n' % binds_list
